@@ -307,3 +307,13 @@ package main
 //@   atcall crypto/subtle.ConstantTimeCompare sets ghostVerifiedBits int (x []byte, y []byte, res int) :: ghostVerifiedBits | AuthTypeBootstrapOTP if res == 1 && ghostBootstrapHashOK && same(y, ghostBootstrapHash) && ghostProfileUser == ghostAuthUser
 //@   atcall RuntimeState).SaveUserProfile sets ghostBootstrapCleared bool (s2 *RuntimeState, username string, profile *userProfile, err error) :: true if err == nil && username == ghostAuthUser && profile == ghostProfile && old(len(profile.BootstrapOTP.Sha512Hash)) == 0
 //@   atcall (*RuntimeState).updateAuthCookieAuthlevel requires (s2 *RuntimeState, w2 http.ResponseWriter, r2 *http.Request, username string, authlevel int) :: ghostBootstrapCleared  #C05.bootstrap-cleared @C05
+
+// C14: the password back end is consulted only by checkUserPassword (which spends a limiter token)
+//@ callers pwauth.PasswordAuthenticator).PasswordAuthenticate only checkUserPassword #C14.backend-only-via-checkUserPassword @C14,C07
+//@ callers checkUserPassword only (*RuntimeState).checkAuth, (*RuntimeState).loginHandler #C14.password-entry-points @C14
+
+// C06/C01: the signing primitives of lib/certgen are reached only through the wrappers whose contracts demand an
+// authenticated, sufficiently strong session
+//@ callers certgen.GenSSHCertFileString only (*RuntimeState).postAuthSSHCertHandler, GenSSHCertFileStringFromSSSDPublicKey #C06.ssh-signing-entry @C06,C01
+//@ callers certgen.GenUserX509Cert only (*RuntimeState).postAuthX509CertHandler #C06.x509-signing-entry @C06,C01
+//@ callers certgen.GenIPRestrictedX509Cert only (*RuntimeState).withParamsGenerateRoleRequestingCert #C06.role-signing-entry @C06
